@@ -26,18 +26,24 @@ Section Eval.
     end.
 
   (* "for callback in callbacks: callback()" over the live list of transition [index] *)
-  Fixpoint eachF (f' : nat) (index : nat) (h : nat) (i : nat) {struct h} : NetModel.N unit :=
+  Section Inner.
+  Variable f' : nat.
+  Section Each.
+  Variable index : nat.
+  Fixpoint eachF (h : nat) (i : nat) {struct h} : NetModel.N unit :=
     match h with
     | O => nfail Fuel
     | S h' =>
       s <~ nget ;;
       match nth_error (nth index (ns_cbs s) []) i with
       | None => nret tt
-      | Some c => run_cb tasks env f' c ;;~ eachF f' index h' (S i)
+      | Some c => run_cb tasks env f' c ;;~ eachF h' (S i)
       end
     end.
 
-  Fixpoint scanF (f' : nat) (snapshot : nat) (g : nat) (index : nat) {struct g} : NetModel.N unit :=
+  End Each.
+  Variable snapshot : nat.
+  Fixpoint scanF (g : nat) (index : nat) {struct g} : NetModel.N unit :=
     match g with
     | O => nfail Fuel
     | S g' =>
@@ -60,14 +66,114 @@ Section Eval.
               run_cb tasks env f' pl
             | None =>
               fire_trans t ;;~
-              eachF f' index (S (S (List.length cbs))) 0 ;;~
-              scanF f' snapshot g' 0
+              eachF index (S (S (List.length cbs))) 0 ;;~
+              scanF g' 0
             end
-          else scanF f' snapshot g' (S index)
+          else scanF g' (S index)
         end
     end.
+  End Inner.
 
   Lemma evaluate_S : forall f' s,
       evaluate tasks env (S f') s = scanF f' (List.length (ns_trans s)) f' 0 s.
   Proof. intros. reflexivity. Qed.
 End Eval.
+
+(* ---- small list facts ---- *)
+Lemma upd_same : forall A (f : A -> A) (l : list A) i a,
+    nth_error l i = Some a -> f a = a -> upd i f l = l.
+Proof.
+  intros A f l. induction l as [|x l IH]; intros [|i] a H E; cbn in *; try discriminate; auto.
+  - inversion H; subst. rewrite E. reflexivity.
+  - rewrite (IH i a H E). reflexivity.
+Qed.
+
+Lemma nth_error_upd_eq : forall A (f : A -> A) (l : list A) i a,
+    nth_error l i = Some a -> nth_error (upd i f l) i = Some (f a).
+Proof.
+  intros A f l. induction l as [|x l IH]; intros [|i] a H; cbn in *; try discriminate; auto.
+  inversion H; reflexivity.
+Qed.
+
+Lemma nth_error_upd_neq : forall A (f : A -> A) (l : list A) i j,
+    i <> j -> nth_error (upd i f l) j = nth_error l j.
+Proof.
+  intros A f l. induction l as [|x l IH]; intros [|i] [|j] H; cbn in *; auto; try congruence.
+Qed.
+
+Lemma upd_length : forall A (f : A -> A) (l : list A) i, List.length (upd i f l) = List.length l.
+Proof. intros A f l. induction l as [|x l IH]; intros [|i]; cbn; auto. Qed.
+
+Lemma with_params_same : forall a, with_params (a_params a) a = a.
+Proof. intros []; reflexivity. Qed.
+
+Lemma ns_eta : forall s : NS,
+    mkNS (ns_places s) (ns_trans s) (ns_cbs s) (ns_place_dict s) (ns_apis s) (ns_start_place s)
+         (ns_final_place s) (ns_fresh s) (ns_test_ids s) (ns_awaited s) (ns_running s) (ns_counters s)
+         (ns_tid s) (ns_sid s) (ns_ls s) (ns_obs s) (ns_log s) (ns_q s) (ns_nss s) (ns_nnot s)
+         (ns_pending s) = s.
+Proof. intros []; reflexivity. Qed.
+
+(* the environment of the fragment: no immediate completions, no reactions, no mutation *)
+Definition env_quiet (env : envcfg) : Prop :=
+  (forall k, ec_imm env k = false) /\ (forall k, ec_react env k = None) /\ ec_mutate env = 0.
+
+Section Cbs.
+  Variable tasks : list task.
+  Variable env : envcfg.
+  Variable Hq : env_quiet env.
+
+  (* ---- unfolding equations (by conversion) ---- *)
+  Lemma run_cb_S : forall f c,
+      run_cb tasks env (S f) c =
+      match c with
+      | CbTS a => on_task_started tasks env f a
+      | CbTF a => on_task_finished tasks env f a
+      | CbSS a => on_service_started tasks env f a
+      | CbSF a => on_service_finished tasks env f a
+      | _ => run_cb tasks env (S f) c
+      end.
+  Proof. intros f []; reflexivity. Qed.
+
+  Lemma on_service_finished_S : forall f ai,
+      on_service_finished tasks env (S f) ai = notify_user tasks env f SF ai false.
+  Proof. reflexivity. Qed.
+
+  Lemma on_task_finished_S : forall f ai,
+      on_task_finished tasks env (S f) ai =
+      (a <~ get_api ai ;; notify_user tasks env f TF ai (Nat.eqb (a_name a) production_task)).
+  Proof. reflexivity. Qed.
+
+  (* what the engine's pending list becomes *)
+  Definition pend_after (k : nkind) (id : ident) (l : list ident) : list ident :=
+    match k with
+    | SS => l ++ [id]
+    | SF => match remove_first (ident_eqb id) l with Some l' => l' | None => l end
+    | _ => l
+    end.
+
+  (* one notification in the fragment: default listeners, no observers *)
+  Definition notified (k : nkind) (a : api) (fin : bool) (s : NS) : NS :=
+    s <| ns_log := ENotif 0 (notif_of s k a) (ns_running s) :: ns_log s |>
+      <| ns_pending := pend_after k (a_uuid a) (ns_pending s) |>
+      <| ns_nss := match k with SS => S (ns_nss s) | _ => ns_nss s end |>
+      <| ns_nnot := S (ns_nnot s) |>
+      <| ns_running := if fin then false else ns_running s |>.
+
+  Lemma notify_user_frag : forall f k ai fin s a,
+      ns_ls s = default_listeners -> ns_obs s = [] ->
+      nth_error (ns_apis s) ai = Some a ->
+      notify_user tasks env (S (S f)) k ai fin s = Ok (tt, notified k a fin s).
+  Proof.
+    intros f k ai fin s a Hls Hobs Ha.
+    destruct Hq as (Himm & Hreact & Hmut).
+    destruct s as [pl tr cbs pd apis sp fp fr ti aw rn cn tid sid ls obs lg q nss nnot pend].
+    cbn in Hls, Hobs, Ha. subst ls obs.
+    cbn [notify_user]. unfold nbind, nget, nmod, nret, nlog, get_api, set_api. cbn [ns_ls ns_apis List.length default_listeners].
+    destruct k; cbn; rewrite ?Ha; cbn; rewrite ?Ha; cbn; rewrite ?Hmut, ?Himm, ?Hreact; cbn;
+      rewrite ?orb_true_r; cbn.
+    all: try (rewrite (upd_same _ _ _ Ha (with_params_same a))).
+    all: cbn; rewrite ?Ha; cbn.
+    all: unfold notified, notif_of; cbn; destruct fin; cbn; try reflexivity.
+  Qed.
+End Cbs.
